@@ -47,6 +47,21 @@ def stake_vectors(c):
     return vs
 
 
+def larger_sets(c):
+    """sets of 13..40 validators with few distinct weights (ties between other weights), ids in random order"""
+    rnd = random.Random(c.seed + 3)
+    out = [dict(ids=list(range(1, 14)), ws=[1 + (7 * i) % 3 for i in range(1, 14)])]
+    for _ in range(c.pick(60, 600)):
+        n = rnd.choice([13, 13, 14, 16, 20, 24, 32, 40])
+        ids = rnd.sample(range(1, 200), n)
+        k = rnd.choice([2, 3, 3, 4])
+        ws = [rnd.randrange(1, k + 1) for _ in range(n)]
+        if rnd.random() < 0.3:
+            ws = [rnd.choice([1, 1, 1, 5]) for _ in range(n)]          # one big tie group and a few heavier members
+        out.append(dict(ids=ids, ws=ws))
+    return out
+
+
 def run(c):
     # ---- canonical form: every Set sequence, replayed
     cfg = c.pick("MC_Validators_quick", "MC_Validators_thorough")
@@ -73,6 +88,13 @@ def run(c):
     c.guard("sets_with_weight_ties", ties)
     c.guard("overwrites", overwrites)
     c.guard("deletions_by_zero_weight", deletions)
+    # ---- canonical order of larger sets (13..40 members with weight ties), expected order evaluated by TLC
+    cin, cout = c.path("canon_sets.ndjson"), c.path("canon_vec.ndjson")
+    vlib.ndjson_write(cin, larger_sets(c))
+    c.tlc_must_pass("fn", "CanonVec", cfg="CanonVec", env={"IN": cin}, edges_out=cout, workers=c.pick(4, 6), timeout=3000)
+    rc_ = fnlib.vec(c, "canon", cout, "canonical-form-larger-sets")
+    c.log("larger sets: %d sets (13..40 validators) compared in order/index/total, also as Copy, Builder().Build(), RLP round trip" % rc_["vectors"])
+    c.guard("larger_sets", rc_["counts"].get("sets_ge_13", 0))
     # ---- big stakes: the clauses at small scope, limb level = integer level
     r_int = c.tlc_must_pass("fn", "MC_BigSmall", cfg=c.pick("MC_BigSmall_int_quick", "MC_BigSmall_int_thorough"), workers=c.pick(4, 6), timeout=3000)
     r_limb = c.tlc_must_pass("fn", "MC_BigSmall", cfg=c.pick("MC_BigSmall_limb_quick", "MC_BigSmall_limb_thorough"), workers=c.pick(4, 6), timeout=3000)
@@ -89,14 +111,15 @@ def run(c):
         c.guard("big_" + g, rb["counts"].get(g, 0))
     c.guard("big_unshifted", rb["counts"].get("sets", 0) - rb["counts"].get("shifted", 0))
     return c.finish("exploration", dict(
-        evaluations=rep["applied"] + rb["vectors"],
+        evaluations=rep["applied"] + rb["vectors"] + rc_["vectors"], larger_sets_compared=rc_["vectors"],
         distinct_nontrivial=len(nontriv) + rb["counts"].get("shifted", 0) if rb["distinct"] == rb["vectors"] else len(nontriv),
         rule="(a) every sequence of Set(id, w) calls of length <= %d over ids {1,2,3} and weights {0..3} (TLC, complete), each executed on the real "
              "builder and compared in SortedIDs/SortedWeights/Idxs/GetIdx/GetID/GetWeightByIdx/Get/Exists/TotalWeight/Len, RLP round trip (into a fresh receiver, into a receiver holding an unrelated set, into a by-value copy of the previous set whose source "
-             "must stay unchanged; re-encoded bytes equal), Copy, Builder; "
+             "must stay unchanged; re-encoded bytes equal), Copy, Builder, and the set staying unchanged when builders derived from it (and from its copy) are mutated; (a2) %d seeded sets of 13..40 validators "
+             "with few distinct weights, canonical order/index/total evaluated by TLC (CanonVec.tla), compared on the built set, its copy, its rebuilt and its decoded form; "
              "non-trivial = distinct call sequences whose resulting set has >= 2 members; (b) big-stake vectors (boundary around 2^31, 2^32, 2^64, 2^255, "
              "2^256-1 and seeded random, 1-5 stakes), expected weights evaluated by TLC from BigStakes.tla; non-trivial = distinct vectors with a non-zero shift"
-             % (4 if c.quick else 5),
+             % (4 if c.quick else 5, rc_["vectors"]),
         states=c.tlc_states, transitions=c.tlc_transitions, traces_validated_against_impl=rep["walks"],
         edges_replayed_on_impl=rep["applied"], distinct_call_sequences=rep["distinct_edges"],
         big_stake_vectors=rb["vectors"], big_stake_counts=rb["counts"],
